@@ -19,7 +19,7 @@ PROPS = {
     "C03": spec("C03", PL.k_c03, LEDGER_RULE),
     "C04": spec("C04", PL.k_c04, LEDGER_RULE),
     "C05": spec("C05", PL2.k_c05, LEDGER_RULE + " C05 histories: truncated exports, duplicated sale rows, forward-matched companions, split/unsplit edge oversells; non-trivial also when some sale is uncovered."),
-    "C06": spec("C06", PL2.k_c06, LEDGER_RULE + VAR_RULE),
+    "C06": spec("C06", PL2.k_c06, LEDGER_RULE + VAR_RULE + " File split also through the built CLI: 2-3 files (sometimes an empty one) with every kind of file ending, report and parse, against the same lines in one file.", need_cli=True),
     "C07": spec("C07", PL2.k_c07, LEDGER_RULE + " Plus the complete sweep of day numbers 1899-01-01..2101-12-31 (model vs chrono vs 6-April rule) and every year filter around each ledger's years."),
     "C08": spec("C08", PX.k_c08, "scenario ledgers with a random currency (GBP, USD, EUR, JPY, CHF, AUD, SEK) on each price / total and a possibly different one on each fee / tax, every operation kind, dates 2015-01 .. last bundled month, plus the foreign-currency fixtures; ledgers needing a month before the first or after the last bundled month; rate folders through the CLI (override, another currency, new month, mislabelled period, zero and negative rate, two files for one month with both modification-time orders, unreadable file name)", need_cli=True),
     "C09": spec("C09", PL2.k_c09, LEDGER_RULE + VAR_RULE),
